@@ -96,6 +96,26 @@ def e2e_item(c):
     return f
 
 
+def tail_item(c):
+    def f(t):
+        ex, base, res = c["extra"], c["base"], c["res"]
+        names = list(base.get("bindings") or []) + list(res.get("bindings") or []) + (ex["group_by"] or []) + [k["b"] for k in ex["keys"] or []]
+        for p in ex["projs"]:
+            names += [p["bind"]] + ([p["alias"]] if p["alias"] else [])
+        ids = T.binding_ids([base.get("rows") or [], res.get("rows") or []], extra=names)
+        lst = lambda bs: "[" + "; ".join("%d%%N" % ids[b] for b in bs) + "]"
+        projs = "[" + "; ".join("mkProj %d%%N %s %s %s" % (
+            ids[p["bind"]], "(Some %d%%N)" % ids[p["alias"]] if p["alias"] else "None",
+            {"": "OpNone", "count": "OpCount", "sum": "OpSum"}[p["op"]], "true" if p["distinct"] else "false") for p in ex["projs"]) + "]"
+        lim = "None" if ex.get("limit") is None else "(Some %s)" % T.zlit(ex["limit"])
+        oc = {"ok": 0, "parse": 1, "exec": 2, "panic": 3}.get(res["outcome"], 9)
+        return "tail_verdict %s %s %s %s %s %s %s %d%%N %s %s" % (
+            lst(ex["group_by"] or []), projs, T.keys_term(ex["keys"] or [], ids), toks_term(t, ex["tokens"], ids), lim,
+            lst(base.get("bindings") or []), t.rowlist(base.get("rows") or [], ids), oc,
+            lst(res.get("bindings") or []), t.rowlist(res.get("rows") or [], ids))
+    return f
+
+
 # ---------------------------------------------------------------- classifiers
 def compare_classes(tokens, rows):
     """known string-comparison defects that can make a HAVING comparison differ from the comparison of the values"""
@@ -179,6 +199,15 @@ def run(ctx):
         if c["res"]["outcome"] != "parse" and not same_tokens(c["extra"]["tokens"], c["extra"].get("tokens_seen")):
             ctx.violation({"kind": "the havingExpression hook collected other tokens than the statement contains", "case": c})
         judge(c, v, c["extra"]["tokens"], c["base"].get("rows") or [], "HAVING through the planner")
+    # all clauses together (GROUP BY, ORDER BY, HAVING, LIMIT): the order of the steps of Execute (C13_after_grouping)
+    tails = T.htable(["-mode", "e2etail", "-n", 150 * mult, "-seed", ctx.seed])
+    tc = T.coq_verdicts(ctx, "c13_tail", [tail_item(c) for c in tails], imports="Reduce ReduceSpec Expr ExprSpec Exec", shard=300)
+    for c, v in zip(tails, tc):
+        dist["tail:%s:%s:%d" % (c["shape"], c["res"]["outcome"], v)] += 1
+        if c["base"]["outcome"] != "ok":
+            ctx.violation({"kind": "base statement failed", "case": c})
+        elif v != 0:
+            ctx.violation({"kind": "GROUP BY + ORDER BY + HAVING + LIMIT through the planner disagrees with Exec.execute_tail", "case": c})
     T.replay_findings(ctx, "C13", "replay13")
     seen = set()
     for c in exprs:
@@ -187,7 +216,7 @@ def run(ctx):
     for c in e2e:
         if c["res"]["outcome"] == "ok" and (c["base"].get("rows")):
             seen.add(vcheck.case_hash(["e", c["q"], c["triples"]]))
-    ctx.cov["evaluations"] = len(exprs) + len(e2e)
+    ctx.cov["evaluations"] = len(exprs) + len(e2e) + len(tails)
     ctx.cov["row_evaluations"] = sum(len(c["results"]) for c in exprs)
     ctx.cov["distinct_nontrivial"] = len(seen)
     ctx.cov["rule"] = ("expr: the builder accepted a token list of more than one comparison-free... i.e. more than three tokens; e2e: the statement "
